@@ -82,7 +82,7 @@ def run_once(module, cfg=None, tag=None, workers=16, timeout_s=600, simulate=Non
             if fn.endswith(".tla") or fn.endswith(".cfg"):
                 shutil.copy(os.path.join(base, fn), os.path.join(wd, fn))
     cfgfile = (cfg or module) + ".cfg"
-    jopts = ["-XX:+UseParallelGC", "-Xmx" + heap]
+    jopts = ["-XX:+UseParallelGC", "-Xmx" + heap, "-Xss64m"]     # deep recursive operators (SumSeq over a pooled slice) overflow the default worker stack
     if deque:
         jopts.append("-Dtlc2.tool.queue.IStateQueue=StateDeque")
     cmd = ["timeout", str(int(timeout_s)), "java"] + jopts + ["-cp", JAR, "tlc2.TLC",
